@@ -75,6 +75,20 @@ def offtick_text():
     return N.render([[rows]])
 
 
+def spread_text(beats):
+    """One 2-column section with a tap / hold head / mine row on each given whole beat (four-row measures)."""
+    last = int(max(beats)) // 4
+    want = {int(b) for b in beats}
+    measures = []
+    for m in range(last + 1):
+        rows = []
+        for r in range(4):
+            b = 4 * m + r
+            rows.append(("1M" if b % 3 == 0 else "12" if b % 3 == 1 else "K[1234]1") if b in want else "00")
+        measures.append(rows)
+    return N.render([measures])
+
+
 _TEXTS = {}
 
 
@@ -188,7 +202,26 @@ def check_timeline(tl, grid, beats):
     return fails
 
 
+def check_special(tl, beats):
+    fails = []
+    try:
+        model = T.Timeline(tl["bpms"], tl["stops"], tl["delays"], tl["warps"], tl["offset"])
+        td = TimingData(SSCSimfile(string=TC.ssc_text(tl)))
+        engine = TimingEngine(td)
+    except core.WatchdogTimeout:
+        raise
+    except Exception as e:
+        return [{"clause": "building the engine raised", "expected": "engine", "observed": f"{type(e).__name__}: {e}"}]
+    check_hittable(model, engine, beats, fails)
+    if not fails:
+        whole = sorted({b for b in beats if b.denominator == 1 and 0 <= b <= 8000})
+        check_timing(model, td, spread_text(whole), fails)
+    return fails
+
+
 def check_case(case):
+    if case["kind"] == "special":
+        return check_special(TC.parse_tl(case["timeline"]), [Fraction(b) for b in case["beats"]])
     if case["kind"] == "timeline":
         return check_timeline(TC.parse_tl(case["timeline"]), case["grid"], [Fraction(b) for b in case["beats"]])
     raise core.MachineryError("unknown case")
@@ -250,6 +283,21 @@ def explore_shard(acc, shard):
             acc.count("transitions")
             rec([first])
             acc.sample(layer, {"grid": grid, "first_event": evs[first], "note_text_head": texts(grid)[0][:60]})
+    elif kind == "special":
+        _, idx, thorough = shard
+        label, tl, beats = TC.special_timelines(thorough)[idx]
+        layer = "X special timelines"
+        case = {"kind": "special", "timeline": TC.fmt_tl(tl), "beats": [str(b) for b in beats], "label": label}
+        core.guard(acc, case)
+        fails = check_special(tl, beats)
+        acc.count("states")
+        acc.count("transitions")
+        acc.count("evaluations", len(beats) * 4)
+        acc.count("nontrivial")
+        acc.outcome("special timeline (crowded warp / long warp / far out / many digits)")
+        for f in fails:
+            acc.violation(f["clause"], case, f.get("expected"), f.get("observed"), signature=(f["clause"], "special"))
+        acc.sample(layer, {"label": label, "probe_beats": len(beats)})
     elif kind == "corpus":
         _, idx = shard
         name, sf, chart = N.corpus_charts()[idx]
@@ -289,6 +337,7 @@ def explore(run):
     for i in range(4):
         shards.append(("sets", "coarse", "dyadic", i, 4 if run.thorough() else 2, run.seed, True))
     shards += [("corpus", i) for i in range(len(N.corpus_charts()))]
+    shards += [("special", i, run.thorough()) for i in range(len(TC.special_timelines(run.thorough())))]
     k = run.seed % len(shards)
     shards = shards[k:] + shards[:k]
     run.merge(core.pmap(explore_shard, shards, run.seed))
@@ -299,11 +348,13 @@ def explore(run):
         + "; in every state hittable() on every probe beat (every tick -2..11 on the fine grid, every quarter beat on the coarse grid); "
         "in every state with a warp time_notes over two 9-column x 8-row x 3-player texts (every note type on every grid row, keysounded on alternating cells) x 3 UnhittableNotes options; corpus charts with their own timing. "
         "Non-trivial = timeline has a warp."
+        + " X: the special timelines of C11 (crowded warps, warps of 8 and 20 beats, events and notes up to beat 8000, extreme and many-digit BPMs, hour offsets): hittable at every probe beat, and a chart with a note row on every whole probe beat timed under the three options."
     )
     run.assumptions = [
         "mc/models/timeline.py decides warp membership, pauses and times; mc/models/notes.py reads the note data",
         "a fake differs from its original only in note_type",
     ]
+    core.require(acc.outcomes["special timeline (crowded warp / long warp / far out / many digits)"] > 0, "no special timeline")
     core.require(acc.outcomes["timeline with a warp (notes timed)"] > 0, "no warp timeline")
     core.require(acc.outcomes["warp with a pause"] > 0, "no warp with pause")
     return run.finish(
